@@ -181,6 +181,21 @@ example : frag2 (.map (.nullable (.arr (.int (some .i32))))) = true ∧
     judge (.map (.nullable (.arr (.int (some .i32))))) (typeOf id (fun _ => []) (.map (.nullable (.arr (.int (some .i32))))))
       (.obj [("a".toList, .arr [.num 1 0, .num (-5) 0]), ("b".toList, .null), ("".toList, .arr [])]) = true := by decide
 
+/-! ### single-value enums -/
+
+/-- finding F02-15: `enum: [v]` / `const: v` with one string value is typed `String` (the value becomes the member's default):
+EVERY other string — an undeclared enum value — is read, for every value and every naming function -/
+theorem C02_single_value_enum_reads_every_string (fname : Str → Str) (vname : J → Str) (v t : Str) (h : t ≠ v) :
+    judge (.single v) (typeOf fname vname (.single v)) (.str t) = false ∧
+    classes fname vname (.single v) (.str t) = [.singleValueEnum] := by
+  have hb : (t == v) = false := by simpa using h
+  simp [judge, judgeRun, valid, rt, typeOf, J.scalarEq, classes, hb]
+
+/-- … while the declared value itself round-trips -/
+theorem C02_single_value_enum_accepts_declared (fname : Str → Str) (vname : J → Str) (v : Str) :
+    judge (.single v) (typeOf fname vname (.single v)) (.str v) = true := by
+  simp [judge, judgeRun, valid, rt, typeOf, J.scalarEq, same]
+
 /-! ### untagged unions (`oneOf` / `anyOf` without discriminator): Model/Union.lean, Sem/Union.lean -/
 
 /-- decoding a union picks the FIRST variant whose type accepts the document (declaration order = order of the alternatives) -/
